@@ -125,19 +125,23 @@ theorem C17_accept_exact (cs : List Call) (op : String) (items : List Item)
       ∀ p ∈ news.zip items, svcPath p.2.d → p.1.key = p.2.d.key :=
   registerEach_accepts op items _ (reachable_inv cs) hk h
 
-/-- The FULL clause "the removed registration has no effect on later builds": nothing that is still
-registered stores an output under an identity other than the registration currently holding it.
-FALSE for the code as it is (finding D25): see `C17_counterexample_removed_sibling`. -/
+/-- "The removed registration has no effect on later builds": whatever an invocation of a still
+registered constructor stores, it stores under identities that are currently registered by the same
+call — never under an identity that was removed (and possibly registered again by someone else). -/
 def NoGhost (reg : Registry) : Prop := NoGhostWith storeOuts reg
 
 def C17_remove_effective_statement : Prop := ∀ cs : List Call, NoGhost (after cs).reg.all
 
-/-- What does hold: after Remove/RemoveKeyed the registration is in none of the three views —
+/-- The clause holds (since /repo 852a640; it was finding D25 before: `createInstance` stored the
+outputs of all siblings of a call, removed or not). -/
+theorem C17_remove_effective : C17_remove_effective_statement := fun cs => noGhost_storeOuts (after cs).reg.all
+
+/-- After Remove/RemoveKeyed the registration is in none of the three views —
 `Contains` is false, the key is gone, the list Build iterates is the old one without that identity
 (so Count drops, and the snapshot a later Build copies does not hold it), other identities and all
 groups are untouched; and a constructor none of whose descriptors is left in the list is not run by
 Build. -/
-theorem C17_remove_effective_partial (cs : List Call) (k : Ident) :
+theorem C17_remove_effective_views (cs : List Call) (k : Ident) :
     let c := after cs
     let c' := removeKey c k
     c'.reg.svc k = none ∧ k ∉ c'.reg.skeys ∧ c'.reg.all = removeIdent c.reg.all k ∧
@@ -161,18 +165,16 @@ theorem C17_remove_effective_partial (cs : List Call) (k : Ident) :
     obtain ⟨d, hd, hdn⟩ := buildRuns_sound _ n hmem
     exact hn d hd hdn
 
-/-- D25, refuting the full clause: `AddSingleton(func() (*A, *B))` then `Remove(*A)`. The descriptor
-of `*B` is still registered and its constructor still stores an `*A` (type 4) although no
-registration holds that identity any more; a later registration of `*A` is shadowed by it. -/
+/-- the former witness of D25: `AddSingleton(func() (*A, *B))` then `Remove(*A)`, then a new
+registration of `*A` (type 4). The descriptor of `*B` still lists `*A` among its siblings, but an
+invocation of its constructor stores `*B` only; the new `*A` is produced by its own constructor. -/
 def witnessD25 : List Call :=
-  [.op (.add { ctor := 1, primary := 4, rets := [4, 5] }), .op (.rm 4)]
+  [.op (.add { ctor := 1, primary := 4, rets := [4, 5] }), .op (.rm 4), .op (.add { ctor := 2, primary := 4, rets := [4] })]
 
-theorem C17_counterexample_removed_sibling : ¬ C17_remove_effective_statement := by
-  intro h
-  have := h witnessD25
-  unfold NoGhost NoGhostWith at this
-  revert this
-  decide
+example : (toSlice (after witnessD25)).map (fun d => (d.ty, d.ctor)) = [(5, 1), (4, 2)] := by decide
+example : (toSlice (after witnessD25)).map (·.stores) = [[(4, Key.nil, 0), (5, Key.nil, 0)], [(4, Key.nil, 0)]] := by decide
+example : (toSlice (after witnessD25)).map (storeOuts (toSlice (after witnessD25))) =
+    [[(5, Key.nil, 0)], [(4, Key.nil, 0)]] := by decide
 
 /-- A provider that has been built is unaffected by later changes to the collection. `doBuild`
 allocates two new map objects and copies the contents; the provider keeps references to those and
@@ -242,6 +244,17 @@ def halfWay : Req :=
 example : (addService (after (sample.take 4)) halfWay).2.isSome = true ∧
     (registerEach "x" (after (sample.take 4)) halfWay.fieldItems).1.reg.all.length = 5 ∧
     count (addService (after (sample.take 4)) halfWay).1 = 3 := by decide
+/-- D26 as the code now is: a result-object field with a name and a group tag is refused when the
+loop reaches it, after a service and two group members of the same call were registered; the
+registry is the one before the call -/
+def bothTags : Req :=
+  { ctor := 9, primary := 50, resultObj := true,
+    fields := [{ ty := 6 }, { ty := 5, grp := 1 }, { ty := 5, grp := 1 }, { ty := 4, name := 2, grp := 1 }, { ty := 7 }] }
+example : (addService (after (sample.take 4)) bothTags).2.isSome = true ∧
+    (registerEach "x" (after (sample.take 4)) (linkSiblings bothTags.fieldItems)).1.reg.all.length = 6 ∧
+    count (addService (after (sample.take 4)) bothTags).1 = 3 ∧
+    contains (addService (after (sample.take 4)) bothTags).1 6 = false := by decide
+
 /-- a snapshot: Build, then a registration and a removal; the provider still finds what was there -/
 example :
     let (h0, r0) := ({} : Heap).newCollection
